@@ -1584,6 +1584,62 @@ Proof.
       * rewrite (PnR u (pa_sel str0 Ar0 u Hu)). apply (pa_sel_user sr3 Asr3 u Hu).
 Qed.
 
+(* ---------- alias() with new column identities ---------- *)
+Definition pl_alias (m : list (uid * uid)) (st : pstate) : pstate :=
+  {| p_rows := p_rows st;
+     p_ns := map (fun un => (remap_uid m (fst un), snd un)) (p_ns st);
+     p_select := map (remap_uid m) (p_select st); p_part := map (remap_uid m) (p_part st);
+     p_ctr := p_ctr st; p_keys := p_keys st |}.
+
+Lemma pname_remap (m : list (uid * uid)) (V : list uid) (ns : names) u :
+  (forall a b, In a V -> In b V -> remap_uid m a = remap_uid m b -> a = b) ->
+  (forall k, In k (dom ns) -> In k V) -> In u (dom ns) ->
+  pname (map (fun un => (remap_uid m (fst un), snd un)) ns) (remap_uid m u) = pname ns u.
+Proof.
+  intros Inj HV Hu. unfold pname, dom in *. induction ns as [|[k n] ns IH]; [destruct Hu|]. simpl.
+  destruct (N.eqb_spec u k) as [E|E].
+  - subst. rewrite N.eqb_refl. reflexivity.
+  - destruct (N.eqb_spec (remap_uid m u) (remap_uid m k)) as [E2|E2].
+    + exfalso. apply E. apply Inj; [apply HV; right; destruct Hu as [Hu|Hu]; [simpl in Hu; congruence|exact Hu]|apply HV; left; reflexivity|exact E2].
+    + destruct Hu as [Hu|Hu]; [simpl in Hu; congruence|]. apply IH; [|exact Hu]. intros k0 Hk0. apply HV. right. exact Hk0.
+Qed.
+
+Lemma palias_case s st m (U : list uid) :
+  PInv s st -> PAux st -> keys_in U (rows s) ->
+  (forall a b, In a (U ++ dom (p_ns st)) -> In b (U ++ dom (p_ns st)) -> remap_uid m a = remap_uid m b -> a = b) ->
+  PInv (do_alias s (Some m)) (pl_alias m st) /\ PAux (pl_alias m st).
+Proof.
+  intros [R S G] A KU Inj. set (V := U ++ dom (p_ns st)) in *.
+  assert (VU : forall x, In x U -> In x V) by (intros x Hx; unfold V; apply in_or_app; left; exact Hx).
+  assert (VD : forall x, In x (dom (p_ns st)) -> In x V) by (intros x Hx; unfold V; apply in_or_app; right; exact Hx).
+  assert (Dn : dom (p_ns (pl_alias m st)) = map (remap_uid m) (dom (p_ns st))).
+  { unfold pl_alias, dom. cbn [p_ns]. rewrite !map_map. reflexivity. }
+  assert (Pn : forall u, In u (dom (p_ns st)) -> pname (p_ns (pl_alias m st)) (remap_uid m u) = pname (p_ns st) u).
+  { intros u Hu. unfold pl_alias. cbn [p_ns]. apply (pname_remap m V (p_ns st) u Inj VD Hu). }
+  split.
+  - constructor; cbn [rows sel group do_alias].
+    + cbn [p_rows pl_alias]. apply Forall2_map_l.
+      pose proof (Forall2_with_In _ _ _ R) as R'. eapply Forall2_impl'; [|exact R'].
+      intros r f [Hrf Hr] u' Hu'. rewrite Dn in Hu'. apply in_map_iff in Hu'. destruct Hu' as [u [<- Hu]].
+      rewrite (Pn u Hu). rewrite (get_remap_row m V Inj r u); [apply (Hrf u Hu)| |apply VD; exact Hu].
+      intros k Hk. apply VU. apply (KU r k Hr Hk).
+    + rewrite S. cbn [p_select pl_alias]. rewrite !map_map. cbn [fst snd]. apply map_ext_in. intros u Hu.
+      rewrite (Pn u (pa_sel st A u Hu)). reflexivity.
+    + rewrite G. reflexivity.
+  - destruct A as [A1 A2 A3 A4 A5 A6 A7]. constructor.
+    + intros u' Hu'. cbn [p_select pl_alias] in Hu'. apply in_map_iff in Hu'. destruct Hu' as [u [<- Hu]].
+      rewrite Dn. apply in_map. apply A1. exact Hu.
+    + intros u' Hu'. cbn [p_part pl_alias] in Hu'. apply in_map_iff in Hu'. destruct Hu' as [u [<- Hu]].
+      rewrite Dn. apply in_map. apply A2. exact Hu.
+    + intros un Hun. cbn [p_ns pl_alias] in Hun. apply in_map_iff in Hun. destruct Hun as [un0 [<- Hun0]]. cbn [snd p_ctr pl_alias].
+      apply (A3 un0 Hun0).
+    + exact A4.
+    + exact A5.
+    + intros u' Hu'. rewrite Dn in Hu'. apply in_map_iff in Hu'. destruct Hu' as [u [<- Hu]]. rewrite (Pn u Hu). apply (A6 u Hu).
+    + intros u' Hu'. cbn [p_select pl_alias] in Hu'. apply in_map_iff in Hu'. destruct Hu' as [u [<- Hu]].
+      rewrite (Pn u (A1 u Hu)). apply (A7 u Hu).
+Qed.
+
 Theorem pl_compile_invariant d : forall a st,
   pl_compile d a = Some st -> pflat_ok d a = true -> PInv (sem_ref d a) st /\ PAux st.
 Proof.
@@ -1622,7 +1678,14 @@ Proof.
     apply andb_prop in F. destruct F as [Fa F3].
     apply andb_prop in F3. destruct F3 as [F3 G3]. apply andb_prop in F3. destruct F3 as [F3 G2]. apply andb_prop in F3. destruct F3 as [G0 G1].
     destruct (IH st0 eq_refl Fa) as [I A]. cbn [sem_ref]. apply psummarize_case; assumption.
-  - destruct m as [m|]; [simpl in C; discriminate C|]. simpl in C, F. cbn [sem_ref do_alias]. apply IH; assumption.
+  - destruct m as [m|]; [|simpl in C, F; cbn [sem_ref do_alias]; apply IH; assumption].
+    cbn [pl_compile] in C. cbn [pflat_ok] in F. destruct (pl_compile d a) as [st0|] eqn:E; [|discriminate C]. inversion C; subst; clear C.
+    apply andb_prop in F. destruct F as [Fa Finj]. destruct (IH st0 eq_refl Fa) as [I A].
+    cbn [sem_ref]. fold (pl_alias m st0). apply (palias_case _ st0 m (ast_uids a)); try assumption.
+    + apply (rk_rows _ _ (ref_keys d a)).
+    + intros x y Hx Hy Exy. cbv zeta in Finj. rewrite forallb_forall in Finj. specialize (Finj x Hx).
+      rewrite forallb_forall in Finj. specialize (Finj y Hy). rewrite Exy, N.eqb_refl in Finj. simpl in Finj.
+      apply N.eqb_eq. exact Finj.
   - simpl in C. discriminate C.
   - cbn [pl_compile] in C. cbn [pflat_ok] in F. destruct how; try discriminate C.
     + destruct (pl_compile d l) as [stl|] eqn:El; [|discriminate C]. destruct (pl_compile d r) as [str|] eqn:Er; [|discriminate C].
